@@ -27,8 +27,8 @@ ASSUMPTIONS = ['the admitted set is taken as observed through geos_within_constr
                'designs whose feasibility or discrete score entries are within 1e-9 of flipping are neither demanded nor forbidden',
                'scoring of brute-force designs uses a pristine second copy of the diagnostics code (formula anchored by C05/C06)']
 EXHAUSTIVE = {'quick': False, 'thorough': False}
-MINIMA = {'quick': {'scaled_copy_cases': 10, 'searches_after_caller_edits': 40, 'prune_trap_cases': 15, 'rounding_window_cases': 12, 'prior_call_cases': 60, 'shared_data_searches': 40, 'compared': 200, 'brute_designs': 3000, 'distinct_nontrivial': 80, 'cases_with_pruning': 8},
-          'thorough': {'scaled_copy_cases': 100, 'searches_after_caller_edits': 400, 'prune_trap_cases': 150, 'rounding_window_cases': 120, 'prior_call_cases': 500, 'shared_data_searches': 400, 'compared': 2500, 'brute_designs': 200000, 'distinct_nontrivial': 1000, 'cases_with_pruning': 100}}
+MINIMA = {'quick': {'misaligned_budget_cases': 10, 'scaled_copy_cases': 10, 'searches_after_caller_edits': 40, 'prune_trap_cases': 15, 'rounding_window_cases': 12, 'prior_call_cases': 60, 'shared_data_searches': 40, 'compared': 200, 'brute_designs': 3000, 'distinct_nontrivial': 80, 'cases_with_pruning': 8},
+          'thorough': {'misaligned_budget_cases': 100, 'scaled_copy_cases': 100, 'searches_after_caller_edits': 400, 'prune_trap_cases': 150, 'rounding_window_cases': 120, 'prior_call_cases': 500, 'shared_data_searches': 400, 'compared': 2500, 'brute_designs': 200000, 'distinct_nontrivial': 1000, 'cases_with_pruning': 100}}
 N = {'quick': 640, 'thorough': 4800}
 CASE_TIMEOUT = {'quick': 300, 'thorough': 1200}
 
@@ -85,6 +85,47 @@ def scaled_copy_case(r, g, G):
   kw['n_designs'] = r.choice([1, 1, 2, 3])
   case['params'] = kw
   case['prior_long_window'] = False
+  return case
+
+
+def misaligned_budget_case(r, g, G):
+  """One of the larger geos takes no part in the search (must be excluded, or has no eligibility row), so positions
+  in the search's geo index are shifted against positions in the data table; the upper budget bound lies between the
+  single-geo budgets of two geos that are neighbours in the data order."""
+  case = sl.make_case(r, g, G, cls='continuous', allow=('size',), elig_mode='ctx', elig_extra='none', n_dates=r.randrange(15, 60))
+  pn = case['panel']
+  ids = [str(i) for i in pn['ids']]
+  kw = {k: v for k, v in case['params'].items() if k not in ('treatment_geos_range', 'control_geos_range', 'geo_ratio_tolerance',
+                                                             'volume_ratio_tolerance', 'budget_range', 'n_geos_max',
+                                                             'treatment_share_range')}
+  case['params'] = kw
+  t0 = sl.Truth(case)
+  if t0.iroas <= 0:
+    return None
+  order = sorted(ids, key=lambda gid: -t0.means[gid])          # data order: decreasing volume
+  out = order[r.randrange(0, max(1, len(order) // 2))]
+  rows = {gid: 'ctx' for gid in ids}
+  if r.random() < 0.6:
+    rows[out] = 'x_fixed'
+  else:
+    del rows[out]
+  case['elig_rows'] = rows
+  case['extra'] = {}
+  case['preset_geo_index'] = False
+  case['prior_long_window'] = False
+  rest = [gid for gid in order if gid != out]
+  pairs = []
+  for j in range(len(order) - 1):
+    a_, b_ = order[j], order[j + 1]
+    if b_ in rest and order.index(b_) > order.index(out):
+      ia, ib = t0.opt_impact([a_]), t0.opt_impact([b_])
+      if ia > ib * 1.02:
+        pairs.append((ia, ib))
+  if not pairs:
+    return None
+  ia, ib = r.choice(pairs)
+  kw['budget_range'] = (0.0, (ib + r.choice([0.3, 0.5, 0.7]) * (ia - ib)) / t0.iroas)
+  kw['n_designs'] = r.choice([3, 50, 100000])
   return case
 
 
@@ -177,6 +218,11 @@ def run_case(spec):
       case, focus, cls = sc, 'scaled_copy', 'scaled_copy'
       counters['scaled_copy_cases'] += 1
       sp.NEAR_RTOL[0] = 1e-11          # well-conditioned panel: float noise in the last score entry is ~1e-13
+  if spec['idx'] % 16 == 13 and G >= 4 and cls is None:
+    mb = misaligned_budget_case(r, g, G)
+    if mb is not None:
+      case, focus, cls = mb, 'misaligned_budget', 'misaligned_budget'
+      counters['misaligned_budget_cases'] += 1
   truth = sl.Truth(case)
   violations = []
   if cls == 'marginal':
